@@ -15,6 +15,8 @@ import LogosModel.FastCheck
 import LogosModel.DriverLook
 import LogosModel.Emit
 import LogosModel.PassesAll
+import LogosModel.PassesSide
+import LogosModel.FromDfa
 import LogosModel.StateType
 import LogosModel.Subst
 import LogosModel.Calls
@@ -99,6 +101,10 @@ structure Case where
   hasRaw : Bool := false
   /-- leaves matching in each raw state (hook lines RMATCH) and the graph errors as dumped -/
   rawMatches : Array (Nat × List Nat) := #[]
+  /-- the DFA's transition table (hook lines DFADEF / DROW) -/
+  dfaRows : Array FromDfa.DRow := #[]
+  dfaStart : Nat := 0
+  hasDfa : Bool := false
   gerrs : Array (List Nat) := #[]
   /-- viability table of a definition with look-around (`none` = not computed yet) -/
   lookT : Option (Option (List LK.LEntry)) := none
@@ -436,6 +442,20 @@ def passesAnswer (c : Case) : String :=
     -- side conditions of `passes_matched` / `passes_nomatch` / `passes_eoi` on this raw graph
     s!"SAME {c.rawStates.size} {f.states.size} side={b (Passes.sideOK raw)}"
 
+/-- "FROMDFA": the model's first half of `Graph::new` applied to the dumped DFA table, compared with the raw
+graph the code built (states, accepts, edges, end-of-input edges, root) and with the graph errors -/
+def fromDfaAnswer (c : Case) : String :=
+  if c.nodump || !c.hasRaw || !c.hasDfa then "NODFA" else
+  if c.dfaRows.size > 700 then s!"BIG {c.dfaRows.size}" else
+  let d : FromDfa.Dfa := { rows := c.dfaRows.toList, start := c.dfaStart }
+  let g := FromDfa.rawOf d c.prios.toList
+  let b := fun (x : Bool) => if x then "1" else "0"
+  if g.root != c.rawRoot then s!"DIFF root model={g.root} code={c.rawRoot}" else
+  if g.states.size != c.rawStates.size then s!"DIFF size model={g.states.size} code={c.rawStates.size}" else
+  match (List.range g.states.size).find? fun i => g.get i != c.rawStates.getD i {} with
+  | some i => s!"DIFF state {i} model={repr (g.get i)} code={repr (c.rawStates.getD i {})}"
+  | none => s!"SAME {c.dfaRows.size} {g.states.size} closed={b (FromDfa.closedB d)} rawside={b (Passes.rawSideOK g)}"
+
 def natListLt : List Nat → List Nat → Bool
   | [], [] => false
   | [], _ => true
@@ -478,6 +498,7 @@ def answer (c : Case) (q : List String) : String :=
   | ["EMIT"] => emitAnswer c
   | ["PASSES"] => passesAnswer c
   | ["STYPE"] => stypeAnswer c
+  | ["FROMDFA"] => fromDfaAnswer c
   | ["EQUIV", i, j] => equivVerdict c i.toNat! j.toNat!
   | ["EQUIV", i, j, f] => equivVerdict c i.toNat! j.toNat! f.toNat!
   | ["MATCH", i, hex] => matchVerdict c i.toNat! (unhex hex)
@@ -696,6 +717,13 @@ partial def run (h : IO.FS.Stream) (out : IO.FS.Stream) (cur : Case) (tbl : Std.
     run h out { cur with states := cur.states.modify s.toNat! fun sd => { sd with normal := sd.normal ++ [e] } } tbl
   | "GERR" :: rest => run h out { cur with gerr := cur.gerr + 1, gerrs := cur.gerrs.push (rest.map String.toNat!) } tbl
   | "RMATCH" :: s :: rest => run h out { cur with rawMatches := cur.rawMatches.push (s.toNat!, rest.map String.toNat!) } tbl
+  | "DFADEF" :: _ :: st :: _ => run h out { cur with hasDfa := true, dfaStart := st.toNat! } tbl
+  | "DROW" :: id :: eoi :: nm :: rest =>
+    let nm := nm.toNat!
+    let ms := (rest.take nm).map String.toNat!
+    let runs := pairsOf (((rest.drop nm).drop 1).map String.toNat!)
+    let next := runs.flatMap fun (t, len) => List.replicate len t
+    run h out { cur with dfaRows := cur.dfaRows.push { id := id.toNat!, next := next, eoi := eoi.toNat!, matching := ms } } tbl
   | "RAWDEF" :: _ :: r :: _ => run h out { cur with hasRaw := true, rawRoot := r.toNat! } tbl
   | "RSTATE" :: _ :: a :: eoi :: _ =>
     let sd : StateData := { accept := optOf (a.toInt?.getD 0), eoi := optOf (eoi.toInt?.getD 0) }
